@@ -17,7 +17,8 @@ static std::vector<value_spec> make_plan(rng& g, std::size_t n, int fmax, int po
         else v.f = (int) g.range(-fmax, fmax);
         v.tag = "fin";
         if (poison && g.below((unsigned) poison) == 0) v.tag = tags[g.below(3)];
-        v.wreq = true;
+        // the integrand asks for the weight (to record it) - except, now and then, where it returns zero: then nobody needs it
+        v.wreq = !(v.f == 0 && v.tag == std::string("fin") && g.below(2) == 0);
     }
     return p;
 }
